@@ -174,6 +174,7 @@ class Exec:
         self.use_contract = set()    # qualnames for which calls use the contract instead of inlining
         self.class_fields = {}       # class qualname -> {attr: type spec}
         self.inject = None           # InjectCfg or None
+        self.call_hooks = {}         # qualname -> hook(interp, fi, args, kwargs, node, self_cls), all paths
         self.notes_abstracted = set()
         self.stats = {'paths': 0, 'feas_checks': 0, 'feas_time': 0.0, 'infeasible': 0}
         self.cur_func = None
